@@ -16,8 +16,8 @@ from simdbus.sched import Scheduler
 
 PROPERTY = 'C12'
 LEVEL = 'exploration'
-QUICK_RUNS = 6000
-QUICK_BUDGET_S = 90
+QUICK_RUNS = 30000
+QUICK_BUDGET_S = 60
 THOROUGH_BUDGET_S = 900
 RULE = ('1-6 match rules over {type, interface, member, path, path_namespace, destination, '
         'argN, argNpath} and proxy subscriptions, added and removed while 1-15 signals '
